@@ -19,6 +19,12 @@ REPO = "/repo"
 
 # property -> list of (name, file relative to /repo, old, new)
 MUTANTS = {
+    "C06": [
+        ("getinstance-no-lock", "src/IPhreeqcLib.cpp", "\tmutex_lock(&map_lock);\n\tstd::map<size_t, IPhreeqc*>::iterator it = IPhreeqc::Instances.find(size_t(id));", "\tstd::map<size_t, IPhreeqc*>::iterator it = IPhreeqc::Instances.find(size_t(id));\n\tmutex_lock(&map_lock);"),
+        ("static-counter-in-do_run", "src/IPhreeqc.cpp", "\tVERIF_POINT(\"do_run.enter\", this->Index, 0);", "\tVERIF_POINT(\"do_run.enter\", this->Index, 0);\n\tstatic int n_runs_total = 0; if (++n_runs_total < 0) return;"),
+        ("index-outside-lock", "src/IPhreeqc.cpp", "\tmutex_lock(&map_lock);\n\tthis->Index = IPhreeqc::InstancesIndex++;", "\tthis->Index = IPhreeqc::InstancesIndex++;\n\tmutex_lock(&map_lock);"),
+        ("shared-tk-cache", "src/phreeqcpp/transport.cpp", "LDBLE F_Re3 = F_C_MOL / (R_KJ_DEG_MOL * 1e3);", "LDBLE F_Re3 = F_C_MOL / (R_KJ_DEG_MOL * 1e3);\nstatic LDBLE verif_dummy_shared;"),
+    ],
     "C14": [
         ("copy-range-off-by-one", "src/phreeqcpp/mainsubs.cpp", "for (size_t i = copy_pp_assemblage.start[j]; i <= copy_pp_assemblage.end[j]; i++)", "for (size_t i = copy_pp_assemblage.start[j]; i < copy_pp_assemblage.end[j]; i++)"),
         ("save-range-first-only", "src/phreeqcpp/mainsubs.cpp", "for (i = save.n_exchange_user + 1; i <= save.n_exchange_user_end; i++)", "for (i = save.n_exchange_user + 1; i < save.n_exchange_user_end; i++)"),
